@@ -781,7 +781,7 @@ func (e *Env) call(c *ECall) Val {
 		if !ok {
 			e.fail("funcref takes a string literal")
 		}
-		return intv(num(int64(e.x.v.funcID(sv.S))))
+		return intv(num(int64(e.x.v.funcID(strings.ReplaceAll(sv.S, "github.com/cbehopkins/gkvlite.", "")))))
 	case "ref":
 		// the reference (address) of a struct-typed expression as Int
 		a := arg(0)
@@ -801,7 +801,7 @@ func (e *Env) call(c *ECall) Val {
 			args = append(args, e.ghostv(gn))
 		}
 		for i := range c.Args {
-			a := arg(i)
+			a := asTerm(arg(i))
 			if a.K != VTerm {
 				e.fail("%s: composite argument", c.Fun)
 			}
